@@ -69,6 +69,7 @@ type Exec struct {
 	spawnedNames []string
 	tokens   []Value // opaque encoder tokens (base64 etc.)
 	syncMaps map[string]*MapV // contents of sync.Map objects
+	syncPools map[string][]Value // stashes of sync.Pool objects
 	shared   map[string]bool
 	regions  map[string][]knownRegion
 	allowPanic []string
